@@ -4,7 +4,7 @@ from __future__ import annotations
 
 import ast
 
-from ..astutil import path_of, unparse, walk_scope, walk_stmts
+from ..astutil import calls_in, path_of, unparse, walk_scope, walk_stmts
 from ..report import Ctx
 from ..suspend import StaleTime, emission_calls, event_class_names, is_time_source, node_suspension, time_bases, zero_delay_wait_loops
 from .common import need
@@ -197,6 +197,35 @@ def run(ctx: Ctx) -> None:
     need(n_sites >= 180, f"C07: only {n_sites} Event construction sites found (203 confirmed by hand) — scan scope broken?")
     need(n_gen >= 110, f"C07: only {n_gen} generator functions scanned")
     ctx.ob("C07-2", "G5", None, "package-wide `now - x` scan", True, f"{n_sites} Event construction sites classified: {hist}", relpath="happysimulator/")
+    # C07-6: a delay accumulated from several sampled terms (base latency + jitter + ...) is clamped at 0 where it leaves the function: a
+    # negative total would stamp the continuation in the past
+    n_acc = 0
+    for fn in prog.all_functions("happysimulator/"):
+        if not fn.module.relpath.startswith(SCOPE):
+            continue
+        acc = {path_of(st.target) for st in walk_stmts(fn.node.body) if isinstance(st, ast.AugAssign) and isinstance(st.op, (ast.Add, ast.Sub)) and isinstance(st.target, ast.Name)
+               and any(isinstance(c, ast.Call) and isinstance(c.func, ast.Attribute) and c.func.attr in ("get_latency", "sample") for c in ast.walk(st.value))}
+        for a in sorted(acc):
+            outs = [st.value for st in walk_stmts(fn.node.body) if isinstance(st, ast.Return) and st.value is not None and a in {x.id for x in ast.walk(st.value) if isinstance(x, ast.Name)}]
+            outs += [y.value for y in ast.walk(fn.node) if isinstance(y, ast.Yield) and y.value is not None and a in {x.id for x in ast.walk(y.value) if isinstance(x, ast.Name)}]
+            for o in outs:
+                n_acc += 1
+                ok = isinstance(o, ast.Call) and path_of(o.func) == "max" and any(isinstance(x, ast.Constant) and x.value == 0 for x in o.args)
+                ctx.ob("C07-6", "G6", fn, o, ok, f"{fn.qual}: the delay `{a}` summed from sampled terms leaves the function as max(0, {a}) (a jitter sample below −latency must not yield a negative delay)")
+    need(n_acc >= 1, "C07-6: no accumulated sampled delay found (expected NetworkLink._calculate_delay)")
+    # C07-7: a tick that is re-armed by searching the schedule for the next boundary searches strictly after the boundary it just handled
+    ss = prog.func("happysimulator/components/industrial/shift_schedule.py", "ShiftedServer._handle_shift_change")
+    calls = [c for c in calls_in(ss.node) if path_of(c.func) == "self._schedule_next_shift"]
+    ok = len(calls) == 1 and any(k.arg == "after_s" for k in calls[0].keywords)
+    if ok:
+        v = [k.value for k in calls[0].keywords if k.arg == "after_s"][0]
+        src = [st for st in walk_stmts(ss.node.body) if isinstance(st, ast.Assign) and path_of(st.targets[0]) == path_of(v)]
+        ok = len(src) == 1 and isinstance(src[0].value, ast.Call) and path_of(src[0].value.func) == "max" and "boundary_s" in unparse(src[0].value) and "self.now.to_seconds()" in unparse(src[0].value)
+    sn = prog.func("happysimulator/components/industrial/shift_schedule.py", "ShiftedServer._schedule_next_shift")
+    txt = unparse(sn.node)
+    ok2 = "self.now.to_seconds() if after_s is None else after_s" in txt and "self.schedule.next_transition_after(current_s)" in txt and "'boundary_s': next_t" in txt
+    ctx.ob("C07-7", "G5", ss, calls[0] if calls else None, ok and ok2,
+           "ShiftedServer re-arms its shift-change tick by searching after max(now, the boundary just handled) — the clock is the boundary truncated to ns and may lie just before it, which would find the same boundary again and spin")
     ctx.floor("C07-1", 10)
     ctx.floor("C07-3", 5)
 
@@ -205,6 +234,8 @@ MQ_ = "happysimulator/components/messaging/message_queue.py"
 GC_ = "happysimulator/components/infrastructure/garbage_collector.py"
 CAN_ = "happysimulator/components/deployment/canary_deployer.py"
 MUTANTS = [
+    ("link-delay-clamps-base-only", "happysimulator/components/network/link.py", ["        delay = self.latency.get_latency(self.now).to_seconds()\n", "        return max(0.0, delay)"], ["        delay = max(0.0, self.latency.get_latency(self.now).to_seconds())\n", "        return delay"], "C07-6"),
+    ("shift-rearm-from-truncated-clock", "happysimulator/components/industrial/shift_schedule.py", "        next_event = self._schedule_next_shift(after_s=time_s)", "        next_event = self._schedule_next_shift()", "C07-7"),
     ("delivery-stamped-before-latency", MQ_, "        delivery_event = Event(\n            time=self._clock.now if self._clock else Instant.Epoch,\n            event_type=\"message_delivery\",", "        delivery_event = Event(\n            time=now,\n            event_type=\"message_delivery\",", "C07-1"),
     ("gc-next-collection-built-before-pause", GC_, "            pause = self._do_collect()\n            yield pause\n            return [self._schedule_next()]", "            pause = self._do_collect()\n            next_collection = self._schedule_next()\n            yield pause\n            return [next_collection]", "C07-1"),
     ("canary-wait-can-be-zero", CAN_, "        # Continue evaluating\n        return [\n            Event(\n                time=self.now + Duration.from_seconds(self._evaluation_interval),", "        wait = min(self._evaluation_interval, stage.evaluation_period - elapsed)\n        return [\n            Event(\n                time=self.now + Duration.from_seconds(wait),", "C07-4"),
